@@ -401,14 +401,17 @@ def session_case(seed):
     T = rng.choice([5.0, 5.0, 1.0])
     # the worker's request budget (max_requests): whether this connection's requests exhaust it must not depend on the worker
     mx = random.Random(seed ^ 0xB0D6E7).choice([None, None, 1, 2, 3, 4])
+    # read_timeout: how long a single read may wait for the client (not how long the protocol may take over what was read)
+    rto = random.Random(seed ^ 0x7EAD).choice([None, None, None, 2.0, 4.0])
     out = {}
     for backend, run in (("asyncio", W.run_asyncio), ("trio", W.run_trio)):
         cfg = R.make_config(())
         cfg._log = R.RecLog([])
         cfg.keep_alive_timeout = T
+        cfg.read_timeout = rto
         res = run(scripted(plan), cfg, script, alpn=alpn, tail=120.0, max_requests=mx)
         out[backend] = normalise(res, alpn)
-    desc = {"seed": seed, "kind": kind, "T": T, "max_requests": mx, "steps": len(script), "instances": len(out["asyncio"]["apps"])}
+    desc = {"seed": seed, "kind": kind, "T": T, "max_requests": mx, "read_timeout": rto, "steps": len(script), "instances": len(out["asyncio"]["apps"])}
     fails = []
     for key in ("apps", "wire", "closed_at", "handler_done", "handler_error", "leftovers", "timeline", "recycle"):
         if out["asyncio"][key] != out["trio"][key]:
